@@ -351,7 +351,7 @@ where
         }
         Ok(None) => {}
         Err(e) => {
-            if src.seen_doc_end() && !e.is_budget_or_io_error() {
+            if src.trailing_error_may_be_ignored(&e) && !e.is_budget_or_io_error() {
                 // Trailing garbage after a proper document end marker is ignored.
             } else {
                 return Err(maybe_with_snippet(e, input, with_snippet, crop_radius));
@@ -463,7 +463,7 @@ fn from_str_with_options_and_path_recorder<T: DeserializeOwned>(
         }
         Ok(None) => {}
         Err(e) => {
-            if src.seen_doc_end() && !e.is_budget_or_io_error() {
+            if src.trailing_error_may_be_ignored(&e) && !e.is_budget_or_io_error() {
                 // ignore trailing garbage
             } else {
                 return Err(maybe_with_snippet(e, input, with_snippet, crop_radius));
@@ -760,7 +760,7 @@ where
         }
         Ok(None) => {}
         Err(e) => {
-            if src.seen_doc_end() && !e.is_budget_or_io_error() {
+            if src.trailing_error_may_be_ignored(&e) && !e.is_budget_or_io_error() {
                 // Trailing garbage after a proper document end marker is ignored.
             } else {
                 return Err(e);
@@ -1161,7 +1161,7 @@ where
         }
         Ok(None) => {}
         Err(e) => {
-            if src.seen_doc_end() && !e.is_budget_or_io_error() {
+            if src.trailing_error_may_be_ignored(&e) && !e.is_budget_or_io_error() {
                 // Trailing garbage after a proper document end marker is ignored.
             } else {
                 return Err(e);
@@ -1774,7 +1774,7 @@ pub fn from_reader_with_options<'a, R: std::io::Read + 'a, T: DeserializeOwned>(
         }
         Ok(None) => {}
         Err(e) => {
-            if src.seen_doc_end() && !e.is_budget_or_io_error() {
+            if src.trailing_error_may_be_ignored(&e) && !e.is_budget_or_io_error() {
                 // Trailing garbage after a proper document end marker is ignored.
             } else {
                 return Err(attach_snippet(e));
